@@ -3,6 +3,7 @@ import TracklibVerif.Lemmas.SplitUid
 import TracklibVerif.Lemmas.SplitVal
 import TracklibVerif.Lemmas.SplitTrack
 import TracklibVerif.Lemmas.SplitIdx
+import TracklibVerif.Lemmas.SplitNum
 /-! # C11 — splitting on a marker partitions the track; markers reflect the thresholds
 
 Property theorems only (helper lemmas are in `Lemmas/Split*.lean`). The models are in `Model/Split.lean`:
@@ -16,6 +17,10 @@ feature `timestamp`), compared with the `ObsTime` operators of `Model/ObsTime.le
 `Model/SplitTrack.lean`: the front end of `split(track, <feature name>)` — the marker read from the feature table BY
 NAME (`FTrack.get`: built-in names, then the dictionary, by the exact string; `== 1` on the cell), `splitTrack` /
 `splitTrackU`, and `segmentation()` followed by `split()` on its output feature (`segSplitTrackG`).
+`Model/SplitNum.lean`: numbers as Python holds them — Python int, Python float, `numpy.int64`, `numpy.float64` (`PNum`) —
+and what `<=` does on each pairing: exact, except that numpy converts the integer operand of an integer/float pair to
+the nearest double (`roundInt`). `segmentation()` itself converts nothing (no `float(threshold)`): `marker_and_num` /
+`marker_or_num` state the property for integers of any size (beyond 2^53, beyond int64) against integer or float thresholds.
 Index lists: `extract_any` / `split_indices_any` cover every list of integers (negative, descending, out of range).
 All statements hold for every track length, every marker vector, every number of tested features; the
 observations are abstract, so nothing depends on coordinates (NaN, infinite, repeated), timestamps or other features. -/
@@ -881,4 +886,68 @@ example : (List.range tk.size).any (colMark Val.isOne [some 0, some 1, some 0, s
 example : (segSplitTrackG Val.isnan Val.le? Val.isOne Val.fmax true tk (.one "speed") "speed>2" (.one (.num (.fin 2)))).toOption
     = some [[0], [1, 2], [3]] := by decide +kernel
 end
+/-! ## numbers of different Python types: ints of any size, floats, numpy scalars (`Model/SplitNum.lean`) -/
+section num
+
+/-- T14 (`<=` between two Python numbers is exact): for a Python int or float against a Python int or float, in any
+pairing and at any magnitude, `a <= b` answers, and answers exactly "not (a exceeds b)" on the VALUES — Python does not
+convert the int to a float (`2**53 + 1 <= 2.0**53` is False). Exact arithmetic: the values are rationals. -/
+theorem num_le_python (a b : PNum) (ha : a.kind.isNumpy = false) (hb : b.kind.isNumpy = false) :
+    PNum.le? a b = .ok (decide (a.val ≤ b.val)) := by
+  unfold PNum.le?
+  rw [PNum.converts_python a b ha hb, PNum.image_false, PNum.image_false]
+
+/-- T14 (numpy scalars): two integers (`numpy.int64` / Python int) or two floats are compared exactly as well
+(`PNum.converts_same`); when numpy does convert — an integer operand `n` of any of the four types against a float `x`
+of either flavour — an integer below 2^53 in magnitude is unchanged by the conversion, so the comparison is still the
+exact one, both ways round. -/
+theorem num_le_small (ka kb : NumKind) (n : Int) (x : Rat) (h : n.natAbs < 2 ^ 53) (hkb : kb.isInt = false) :
+    PNum.le? ⟨ka, .fin (n : Rat)⟩ ⟨kb, .fin x⟩ = .ok (decide ((n : Rat) ≤ x)) ∧
+    PNum.le? ⟨kb, .fin x⟩ ⟨ka, .fin (n : Rat)⟩ = .ok (decide (x ≤ (n : Rat))) := by
+  have hx : ∀ (c : Bool), PNum.image c ⟨kb, .fin x⟩ = .fin x := by
+    intro c; unfold PNum.image; simp [hkb]
+  constructor
+  · unfold PNum.le?
+    rw [PNum.image_small _ ka n h, hx]; congr 1; exact decide_eq_decide.mpr (Ext.fin_le _ _)
+  · unfold PNum.le?
+    rw [PNum.image_small _ ka n h, hx]; congr 1; exact decide_eq_decide.mpr (Ext.fin_le _ _)
+
+/-- T14 (AND mode on numbers of any Python type and size): thresholds paired with the tested values so that no compared
+pair makes numpy convert (Python ints and floats in any pairing — e.g. an integer feature beyond 2^53 against an integer
+threshold that is not a double; `numpy.int64` against integers; floats against floats): the call raises nothing and the
+marker is 1 exactly when some tested non-NaN value EXACTLY exceeds its threshold. No threshold is rounded. -/
+theorem marker_and_num (ths : List PNum) (vals : List (Option PNum)) (h : vals.length ≤ ths.length)
+    (hk : ∀ (i : Nat) (v th : PNum), vals[i]? = some (some v) → ths[i]? = some th → v.converts th = false) :
+    ∃ b, markerG PNum.isnan PNum.le? PNum.fmax true ths vals = .ok b ∧
+      (b = true ↔ ∃ (i : Nat) (v th : PNum), vals[i]? = some (some v) ∧ ths[i]? = some th ∧ th.val < v.val) := by
+  obtain ⟨b, hb, hiff⟩ := marker_and_typed PNum.isnan PNum.le? PNum.gt PNum.fmax ths vals h (PNum.typed ths vals hk)
+  refine ⟨b, hb, hiff.trans ⟨?_, ?_⟩⟩
+  · rintro ⟨i, v, th, hv, _, hth, hg⟩; exact ⟨i, v, th, hv, hth, by simpa [PNum.gt] using hg⟩
+  · rintro ⟨i, v, th, hv, hth, hg⟩; exact ⟨i, v, th, hv, rfl, hth, by simpa [PNum.gt] using hg⟩
+
+/-- T14 (OR mode): the marker is 1 exactly when every tested non-NaN value exactly exceeds its threshold. -/
+theorem marker_or_num (ths : List PNum) (vals : List (Option PNum)) (h : vals.length ≤ ths.length)
+    (hk : ∀ (i : Nat) (v th : PNum), vals[i]? = some (some v) → ths[i]? = some th → v.converts th = false) :
+    ∃ b, markerG PNum.isnan PNum.le? PNum.fmax false ths vals = .ok b ∧
+      (b = true ↔ ∀ (i : Nat) (v th : PNum), vals[i]? = some (some v) → ths[i]? = some th → th.val < v.val) := by
+  obtain ⟨b, hb, hiff⟩ := marker_or_typed PNum.isnan PNum.le? PNum.gt PNum.fmax ths vals h (PNum.typed ths vals hk)
+  refine ⟨b, hb, hiff.trans ⟨?_, ?_⟩⟩
+  · intro hall i v th hv hth; simpa [PNum.gt] using hall i v th hv rfl hth
+  · intro hall i v th hv _ hth; simpa [PNum.gt] using hall i v th hv hth
+
+-- non-vacuity / regression witnesses: an integer threshold beyond 2^53 that is not a double (2^53 + 3), integer values
+-- around it; rounding the threshold to its double (2^53 + 4) would move the marker of the values 2^53 + 4: the model,
+-- like the code, does not
+example : (markersG PNum.isnan PNum.le? PNum.fmax true [⟨.pyInt, .fin (2 ^ 53 + 3)⟩]
+    [[some ⟨.pyInt, .fin (2 ^ 53 + 2)⟩], [some ⟨.pyInt, .fin (2 ^ 53 + 3)⟩], [some ⟨.pyInt, .fin (2 ^ 53 + 4)⟩], [none]]).toOption
+    = some [false, false, true, false] := by decide +kernel
+example : roundInt (2 ^ 53 + 3) = 2 ^ 53 + 4 := by decide +kernel
+example : roundInt 1700000000000000300 = 1700000000000000256 := by decide +kernel
+example : (markersG PNum.isnan PNum.le? PNum.fmax true [⟨.pyFloat, .fin (2 ^ 53 + 4)⟩] [[some ⟨.pyInt, .fin (2 ^ 53 + 4)⟩]]).toOption
+    = some [false] := by decide +kernel
+-- a Python int against a float: exact; the same integer as a numpy.int64 against the same float: converted first
+example : (PNum.le? ⟨.pyInt, .fin (2 ^ 53 + 1)⟩ ⟨.pyFloat, .fin (2 ^ 53)⟩).toOption = some false := by decide +kernel
+example : (PNum.le? ⟨.npInt, .fin (2 ^ 53 + 1)⟩ ⟨.pyFloat, .fin (2 ^ 53)⟩).toOption = some true := by decide +kernel
+example : (PNum.le? ⟨.npFloat, .fin (2 ^ 53 + 4)⟩ ⟨.pyInt, .fin (2 ^ 53 + 3)⟩).toOption = some true := by decide +kernel
+end num
 end TV.C11
